@@ -88,6 +88,21 @@ def hand_built():
             ("double group", T.Group(T.Group(T.OrOperation(W("a"), W("b"))))),
             ("deep", T.AndOperation(T.SearchField("f", T.FieldGroup(T.OrOperation(W("a"), T.Plus(T.Group(T.UnknownOperation(W("b"), W("c"))))))), T.Not(T.Group(T.OrOperation(W("d"), W("e")))))),
             ("single word", W("solo")), ("range", T.Range(W("1"), W("2"))), ("field", T.SearchField("f", W("x")))]
+    # every class of operation, also the boolean one that the resolver builds, alone and nested
+    from luqum.utils import UnknownOperationResolver
+    out += [("boolean operation", T.BoolOperation(T.Plus(W("a")), T.Prohibit(W("b")), W("c"))),
+            ("boolean operation from the resolver", UnknownOperationResolver(T.BoolOperation)(parser.parse("a +b -c (d e)"))),
+            ("boolean operation below a group below an AND", T.AndOperation(W("x"), T.Group(T.BoolOperation(W("a"), T.Not(W("b")))))),
+            ("implicit operation", T.UnknownOperation(W("a"), W("b"), T.Group(T.UnknownOperation(W("c"), W("d")))))]
+    # an operation far below the root, under several levels that are not operations
+    deep = T.OrOperation(W("a"), W("b"))
+    for k in range(120):
+        deep = [T.Group, T.Not, lambda x: T.SearchField("f", T.FieldGroup(x)), lambda x: T.Boost(x, 2), T.Plus][k % 5](deep)
+    out.append(("an OR under 120 wrappers", deep))
+    chain = T.AndOperation(W("a"), W("b"))
+    for k in range(110):
+        chain = T.AndOperation(W("l%d" % k), T.Group(chain))
+    out.append(("110 nested AND groups", chain))
     # trees that already carry names
     t1 = parser.parse("a AND b")
     auto_name(t1)
